@@ -266,6 +266,18 @@ func fieldStore(in ssa.Instruction, field string) (*ssa.Store, bool) {
 	return st, true
 }
 
+// rootStructOf: the named struct a field address is rooted in, looking through nested private
+// structs that group fields (dsc.timing.passAt is a field of the discipline).
+func rootStructOf(fa *ssa.FieldAddr) *types.Named {
+	for {
+		inner, ok := fa.X.(*ssa.FieldAddr)
+		if !ok {
+			return namedOrigin(fa.X.Type())
+		}
+		fa = inner
+	}
+}
+
 // addrField: the struct field an address denotes, looking through a pointer parameter that the
 // caller bound to &x.f (a method with pointer receiver on a wrapper type of the field).
 func (p *Prog) addrField(fr *Frame, addr ssa.Value) (string, bool) {
